@@ -73,6 +73,8 @@ type Ctx struct {
 	nonNilGlobals map[*ssa.Global]bool
 	nonNilDone    map[*ssa.Global]bool
 	pureMemo      map[*ssa.Function]int
+	initOnly      map[*ssa.Global]bool
+	initOnlyDone  map[*ssa.Global]bool
 }
 
 func (c *Ctx) note(format string, a ...interface{}) {
